@@ -52,7 +52,7 @@ Record vcfg := {
   cv_sync : conv_cfg;
   cv_async : conv_cfg;
   (* _as_args *)
-  aa_arrival_on_unknown_key : bool;      (* no **kwargs and a key that is no parameter -> arrival order *)
+  aa_arrival_on_unknown_key : bool;      (* no **kwargs and a key that is no parameter -> arrival order (before fix d10af45) *)
   aa_signature_order : bool              (* otherwise: positional prefix in signature order *)
 }.
 
@@ -446,7 +446,7 @@ Definition reference_cfg : vcfg := {|
   wc_unused := [UExternal; URequired; UParamDefault; USigDefault];
   cv_sync := reference_conv;
   cv_async := reference_conv;
-  aa_arrival_on_unknown_key := true;
+  aa_arrival_on_unknown_key := false;
   aa_signature_order := true |}.
 
 Definition reference_req_rule (has_default required : bool) : bool := if has_default then false else required.
